@@ -289,8 +289,9 @@ def r16_6(ctx):
 
 def run(ctx):
     r16_6(ctx)
-    from .generic import ctor_forwards_params
+    from .generic import ctor_forwards_params, per_instance_state
     ctor_forwards_params(ctx, 'R16.7', ['queues'], floor=1)
+    per_instance_state(ctx, 'R16.8', ['queues'], floor=2)
     r16_1(ctx)
     r16_2(ctx)
     r16_3(ctx)
